@@ -733,6 +733,11 @@ async def _scenario(loop, spec, want_cases):
             w.crashed = state["crashed"] = path[pos][0]
         else:
             res["skipped"] = True
+    if spec.get("data_after") and c.state == "READY" and c.circuit_id in w.origin.circuits:
+        # the originator does not know about the teardown yet: the circuit's FIRST data cell is in flight and reaches
+        # the exit while its entry lingers for remove_tunnel_delay (seed C09h: outside sockets closed before the delay,
+        # the late cell opens them again and nothing closes them when the entry goes)
+        w.api_send_data(c, ("1.2.3.4", 5), BT_DATA)
     # how long until everything must be gone
     n0 = w.origin
     mi, sw, d, nht, init_tries = orc.limits(n0)
@@ -972,6 +977,12 @@ def families(quick, rng, seed0=0):
                 if phase == "transfer" and len(jobs) % 2:
                     base["outside_after"] = True
                 jobs.append({"base": base, "enumerate": "destroy" if mode == "destroy" else None, "upto": 3, "lockstep": 5})
+        # a node behind the originator tears the idle circuit down while its first data cell is on the way
+        for p in range(1, h + 1):
+            for m in ("destroy", "silent"):
+                jobs.append({"base": {"hops": h, "phase": "ready", "init": ("node", p), "mode": m, "seed": seed0 + len(jobs) + 1,
+                                      "family": "data-in-flight", "data_after": True},
+                             "enumerate": None, "upto": 0, "lockstep": 5})
         # age limit and traffic limit, nobody tears anything down
         jobs.append({"base": {"hops": h, "phase": "ready", "init": None, "mode": "none", "seed": seed0 + len(jobs) + 1,
                               "family": "age-limit", "settings": {"max_time": 40}}, "enumerate": None, "upto": 0, "lockstep": 5})
